@@ -240,3 +240,9 @@ def jobs(tier, seed):
     for w in ['Q', 'hJ', 'matrix_to_qubo', 'qubo_to_matrix']:
         add('export/%s' % w, 'make_export', dict(which=w))
     return J
+
+
+def post(results, tier, seed):
+    """label-symbolic CrossHair lemmas on the real helper functions (auxiliary layer, see DESIGN.md 2.3)"""
+    from ..lemmas.run import as_extra
+    return as_extra('keys', ['lemma_spin_bool_roundtrip', 'lemma_boolean_to_spin_values', 'lemma_is_solution_spin', 'lemma_decimal_roundtrip'], 'C04', timeout=20 if tier == 'quick' else 60)
